@@ -151,6 +151,21 @@ pub fn run(op: &str, args: &[&str]) -> Option<String> {
             let a = sk!(x);
             Some(format!("OK {}", show_hex(&(a * n).to_bytes())))
         }
+        ("ident", [x, y]) => {
+            let (a, b) = (sk!(x), sk!(y));
+            let pa = PublicKey::from_private_key(&a);
+            let pb = PublicKey::from_private_key(&b);
+            let ab = pa + pb;
+            Some(format!(
+                "OK {} {} {} {} {} {}",
+                show_hex(PublicKey::from_private_key(&(a + b)).as_bytes()),
+                show_hex(ab.as_bytes()),
+                show_hex((a * &pb).as_bytes()),
+                show_hex(PublicKey::from_private_key(&(a * b)).as_bytes()),
+                show_hex((ab - pb).as_bytes()),
+                show_hex(pa.as_bytes())
+            ))
+        }
         ("torsion", [i]) => {
             let i: usize = i.parse().ok()?;
             if i >= 8 {
